@@ -497,13 +497,18 @@ class SGen:
             if t is None:
                 break
             k = r.random()
+            # the table of an ALTER / RENAME / DROP is named through the main schema now and then (never a temporary
+            # table, which lives in the temp schema); run_history then shadows it by a temporary table of the same
+            # name, so that a rendering which loses the qualifier acts on the wrong table
+            tq = (lambda n, _t=t: "%s %s" % (hexs("main"), hexs(n))
+                  if not _t["temp"] and r.random() < 0.3 else hexs(n))   # noqa
             names = [c["name"] for c in t["cols"]]
             plainc = [c["name"] for c in t["cols"] if not c["generated"]]
             intc = [c["name"] for c in t["cols"] if not c["generated"] and type_head(c["ty"]) in INT_KINDS]
             if k < 0.25 and pool:
                 n = pool.pop()
                 cd, _ = self.coldef(n, intc, None, alter=True)
-                emit("(talter (table (t %s)) (%s %s))" % (hexs(cur), r.choice(["addcol", "addcol", "addcoline"]), cd))
+                emit("(talter (table (t %s)) (%s %s))" % (tq(cur), r.choice(["addcol", "addcol", "addcoline"]), cd))
             elif k < 0.4 and pool:
                 new = pool.pop()
                 if "'" in new or any("'" in nm_ for nm_ in names):
@@ -511,7 +516,7 @@ class SGen:
                     # (an engine quirk of RENAME COLUMN, independent of the statement text): no RENAME COLUMN on a
                     # table that has, or would get, a column name containing a single quote
                     continue
-                emit("(talter (table (t %s)) (rencol %s %s))" % (hexs(cur), hexs(r.choice(names)), hexs(new)))
+                emit("(talter (table (t %s)) (rencol %s %s))" % (tq(cur), hexs(r.choice(names)), hexs(new)))
             elif k < 0.5:
                 used = set(x.lower() for x, _ in t["pk"])
                 for u in t["uniques"]:
@@ -551,10 +556,10 @@ class SGen:
                 emit("(idrop (name %s) (ifexists))" % hexs("no_such_index"))
             elif k < 0.94 and pool and not t["temp"]:
                 new = pool.pop()
-                emit("(trename (t %s) (t %s))" % (hexs(cur), hexs(new)))
+                emit("(trename (t %s) (t %s))" % (tq(cur), hexs(new)))
                 cur = new
             else:
-                emit("(tdrop (table (t %s))%s)" % (hexs(cur), " (ifexists)" if r.random() < 0.5 else ""))
+                emit("(tdrop (table (t %s))%s)" % (tq(cur), " (ifexists)" if r.random() < 0.5 else ""))
         return lines
 
 
@@ -698,6 +703,29 @@ def compare(con, d):
 
 
 ENGINE_QUIRKS = {}
+SHADOWED = [0]
+
+
+def shadowed_table(stmt, d):
+    """the table of an ALTER / RENAME / DROP statement when the case names it through the main schema: the statement
+    is then executed with a temporary table of the same name in place (SQLite resolves an unqualified name in the temp
+    schema first), so it keeps its meaning only if the rendering keeps the qualifier."""
+    ref = None
+    if stmt[0] == "trename":
+        ref = stmt[1]
+    elif stmt[0] == "tdrop" or (stmt[0] == "talter" and not any(c[0] == "rencol" for c in stmt[1:])):
+        # (not RENAME COLUMN: the engine re-parses every schema entry after it, and resolves the table of an index
+        # of main.x to the shadowing temp.x while doing so - an artefact of the fixture, not of the statement)
+        for c in stmt[1:]:
+            if c[0] == "table":
+                ref = c[1]
+    if ref is None or len(ref) != 3 or H(ref[1]) != "main":
+        return None
+    n = d.find(H(ref[2]))
+    if n is None or d.tables[n]["temp"]:
+        return None
+    SHADOWED[0] += 1
+    return n
 
 
 def run_history(lines, sql_of):
@@ -712,8 +740,17 @@ def run_history(lines, sql_of):
             sql = sql_of(line)
             if sql is None:
                 return i, "the implementation did not render a statement SQLite supports"
+            shadow = shadowed_table(stmt, d)
+            if shadow is not None:
+                con.execute("CREATE TEMP TABLE %s (sqv_shadow)" % q(shadow))
             try:
-                con.execute(sql)
+                try:
+                    con.execute(sql)
+                finally:
+                    if shadow is not None:
+                        for (n,) in con.execute("SELECT name FROM sqlite_temp_master WHERE type = 'table' AND "
+                                                "sql LIKE '%(sqv_shadow%'").fetchall():
+                            con.execute("DROP TABLE temp.%s" % q(n))
             except sqlite3.Error as e:
                 if stmt[0] == "talter" and "after rename" in str(e):
                     # RENAME COLUMN was parsed and carried out; the engine then failed to re-parse ITS OWN rewritten
